@@ -386,7 +386,7 @@ func Run(ctx *common.Ctx) {
 	// spread the (more expensive) session cases evenly over the shards
 	terms, descs = spread(terms, descs, nvalues)
 	header := "From Coq Require Import List String ZArith NArith Bool.\nImport ListNotations.\nFrom C19 Require Import Model Spec Corr.\n"
-	footer := "Definition res := Eval vm_compute in check_all cases.\nPrint res.\nDefinition gcount := Eval vm_compute in guard_count cases.\nPrint gcount.\n"
+	footer := "Definition res := Eval vm_compute in check_all cases.\nPrint res.\nDefinition gcount := Eval vm_compute in guard_count cases.\nPrint gcount.\nDefinition class_cases := Eval vm_compute in class_case_count cases.\nPrint class_cases.\nDefinition class_ranked := Eval vm_compute in class_ranked_count cases.\nPrint class_ranked.\n"
 	nshards := 16
 	if ctx.Thorough() {
 		nshards = 64 // a coqc process needs about 3 GB for 600 cases; the check evaluates 16 shards at a time
